@@ -717,6 +717,60 @@ func c10(r *core.Run) {
 		if w, ok := core.Reach(core.Q{From: f10Heads(pending), Target: core.IsReturn, Blocked: isMove}); ok {
 			o.Fail(p.InstrPos(w), "re-setting a pending key does not re-schedule it")
 		}
+		// The new value must reach the entry that will fire. Either it is copied
+		// before the move (the move's replacement then copies it on), or the move
+		// handler updates the key's position record in place (so that a copy made
+		// afterwards through that record lands in the replacement). A copy made after
+		// a move that registers a fresh position record is lost.
+		copyBeforeMove := true
+		for _, mvCall := range core.Instrs(st, isMove) {
+			if _, ok := core.Reach(core.Q{From: f10Heads(pending), Target: core.Is(mvCall), Blocked: copies}); ok {
+				copyBeforeMove = false
+			}
+		}
+		freshRecord := core.Instrs(mv, func(in ssa.Instruction) bool {
+			c, ok := in.(*ssa.Call)
+			return ok && core.Short(core.CalleeName(c)) == "(*lib/collection.SafeMap).Put" && core.IsFieldLoad(core.Args(c)[0], "TimingWheel.timers")
+		})
+		if !copyBeforeMove && len(freshRecord) > 0 {
+			o.Fail(p.InstrPos(freshRecord[0]), "a re-set copies the new value into the pending entry only after the move, and the move registers a fresh position record: the value lands in the tombstoned entry and the task fires with a stale value")
+		}
+	})
+
+	r.Check("D3/K3/next-read-before-unlink", "while scanning a slot list, an element's successor is read before the element is unlinked (list.Remove clears the links; reading Next afterwards ends the scan and strands the rest of the slot)", func(o *core.O) {
+		isRemove := core.CallTo("(*container/list.List).Remove")
+		n := 0
+		for _, f := range p.PkgFuncs(f10CollPkg) {
+			rms := core.Calls(f, isRemove)
+			if len(rms) == 0 || !strings.Contains(core.FuncName(f), "TimingWheel") {
+				continue
+			}
+			r.Fn(core.FuncName(f))
+			for _, rm := range rms {
+				n++
+				elem := core.Strip(core.Args(rm)[1])
+				isNextOfElem := func(in ssa.Instruction) bool {
+					c, ok := in.(*ssa.Call)
+					if !ok || core.Short(core.CalleeName(c)) != "(*container/list.Element).Next" {
+						return false
+					}
+					return core.Strip(core.Args(c)[0]) == elem
+				}
+				// stop at the loop header's φ re-definition: a use of the same SSA value after the
+				// removal is a use of the removed element (φ values are per iteration only through the back edge,
+				// where `elem` is re-bound; the receiver then is the φ itself, i.e. the next iteration's element —
+				// so only uses before the back edge count)
+				blocked := func(in ssa.Instruction) bool { return false }
+				if phi, ok := elem.(*ssa.Phi); ok {
+					hdr := phi.Block()
+					blocked = func(in ssa.Instruction) bool { return in.Block() == hdr && in == hdr.Instrs[0] }
+				}
+				if w, ok := core.Reach(core.Q{From: []core.At{core.After(rm)}, Target: isNextOfElem, Blocked: blocked}); ok {
+					o.Fail(p.InstrPos(w), "%s reads Next() of an element after unlinking it (%s): the scan stops and the remaining tasks of the slot wait a whole revolution", core.FuncName(f), p.InstrPos(rm))
+				}
+			}
+		}
+		o.Site(n)
 	})
 
 	// ---------------- D4 placement ----------------
